@@ -33,7 +33,7 @@ def make_scratch(m):
         s = f.read()
     if s.count(m["old"]) < 1:
         shutil.rmtree(d)
-        raise SystemExit(f"mutant {m['id']}: pattern not found in {m['file']}")
+        raise LookupError(f"mutant {m['id']}: pattern not found in {m['file']}")
     s = s.replace(m["old"], m["new"], m.get("count", 1))
     with open(p, "w") as f:
         f.write(s)
@@ -41,7 +41,10 @@ def make_scratch(m):
 
 
 def run_one(m, prop, tier="quick"):
-    d = make_scratch(m)
+    try:
+        d = make_scratch(m)
+    except LookupError as e:
+        return m["id"], prop, "STALE", [str(e)]
     try:
         env = dict(os.environ, VERIF_REPO=d, VERIF_EVIDENCE_DIR=os.path.join(d, "evidence"), VERIF_OUT_DIR=os.path.join(d, "out"))
         r = subprocess.run([os.path.join(HERE, "check"), prop, tier], capture_output=True, text=True, env=env, timeout=1800)
